@@ -43,3 +43,19 @@ func C08SetLists(mod module.Module, oversign, sign []string) {
 }
 
 func C08NewBare() module.Module { return &Modifier{} }
+
+// C08SignerPublics returns, per normalised domain, the public half of the key the modifier signs with
+// (looking through a recording wrapper).
+func C08SignerPublics(mod module.Module) map[string]crypto.PublicKey {
+	out := map[string]crypto.PublicKey{}
+	for k, s := range mod.(*Modifier).signers {
+		out[k] = s.Public()
+	}
+	return out
+}
+
+// C08Lists returns the configured lists (the signer's input).
+func C08Lists(mod module.Module) (oversign, sign []string) {
+	m := mod.(*Modifier)
+	return append([]string{}, m.oversignHeader...), append([]string{}, m.signHeader...)
+}
